@@ -335,7 +335,13 @@ def step_case(rng, cfgname, thumb, code, mode=None, it=None, e=None, code_base=N
                 poke.append((at - 0x10, bytes(rng.getrandbits(8) | 1 for _ in range(0x20))))
     # something recognisable in the data device and at the vectors
     poke.append((DATA[0], bytes((rng.getrandbits(8) for _ in range(DATA[1])))))
-    return e1.make_case(cfg, devs, st, poke, steps, hooked)
+    case = e1.make_case(cfg, devs, st, poke, steps, hooked)
+    if rng.random() < 0.03:
+        # the data device is an instance of an embedder-defined RAM subclass that overrides read() / write(): the processor reaches it through those
+        for m_ in case['mems']:
+            if m_[0] == DATA[0]:
+                m_.append('x')
+    return case
 
 
 DEFAULT_MPU_REGIONS = 12
